@@ -1,4 +1,4 @@
-import DoltVerif.Lemmas.ProllyMergeApply
+import DoltVerif.Lemmas.ProllyMergeKeywise
 import DoltVerif.Props.C13
 /-!
 C14 — Three-way tree merges follow key-wise merge semantics.
@@ -162,6 +162,74 @@ theorem tw_merge_lookup {store} {cmp : Bytes → Bytes → Ordering} (ol : OrdLa
       intro d hd
       simpa using hno d hd
     rw [fl, this]
+
+/-- key-wise specification of the merge through the three-way differ: what a key maps to in the
+merged content as a function of what it maps to in base, left and right only -/
+def mergeKeyTW (resolve : ResolveCb) (b l r : Option KV) : Option KV :=
+  match changeD b l, changeD b r with
+  | _, none => l                                          -- right did not change the key
+  | none, some er => effect (newRightEdit er) l           -- only right changed it: take right's
+  | some el, some er => effect (matchEdit resolve el er) l -- both changed it: the `dsMatch` verdict
+
+theorem effect_left (e : Event) (l : Option KV) : effect (newLeftEdit e) l = l := by
+  cases ht : e.type <;> simp [effect, newLeftEdit, ht]
+
+/-- **tw_merge_keywise** (key-wise merge semantics of the three-way-differ path): for all
+well-formed triples with strictly ascending contents under a lawful order and every key `k`, the
+merged content maps `k` to `mergeKeyTW` of what base, left and right map `k` to: unchanged on the
+right ⇒ left's mapping; changed only on the right ⇒ right's mapping (or nothing for a delete);
+changed on both sides ⇒ the resolver's merged value when it resolves a modify/modify divergence,
+left's mapping otherwise (convergent, conflicts, delete divergences). -/
+theorem tw_merge_keywise {store} {cmp : Bytes → Bytes → Ordering} (ol : OrdLaws cmp) (resolve : ResolveCb)
+    (base left right : Tree) (hb : base.WF store) (hl : left.WF store) (hr : right.WF store)
+    (sb : Sorted cmp base.flatten) (sl : Sorted cmp left.flatten) (sr : Sorted cmp right.flatten)
+    (ds : List TWDiff) (h : threeWayDiffer cmp resolve false false base left right = some ds) (k : Bytes) :
+    lookupKV cmp k (ds.foldl (applyTW cmp) left.flatten) =
+      mergeKeyTW resolve (lookupKV cmp k base.flatten) (lookupKV cmp k left.flatten) (lookupKV cmp k right.flatten) := by
+  obtain ⟨cls, _⟩ := differ3_classifies ol resolve false false base left right hb hl hr sb sl sr ds h
+  obtain ⟨tw1, tw2⟩ := tw_merge_lookup ol resolve base left right hb hl hr sb sl sr ds h k
+  unfold mergeKeyTW
+  cases hcl : changeD (lookupKV cmp k base.flatten) (lookupKV cmp k left.flatten) with
+  | none =>
+    have nl := (diffSpec_none_at_key ol sb sl k).mpr hcl
+    cases hcr : changeD (lookupKV cmp k base.flatten) (lookupKV cmp k right.flatten) with
+    | none =>
+      have nr := (diffSpec_none_at_key ol sb sr k).mpr hcr
+      simp only []
+      apply tw2
+      intro d hd
+      rcases (cls d).mp hd with ⟨el, hel, rfl, _⟩ | ⟨er, her, rfl, _⟩ | ⟨el, er, hel, _, rfl, _⟩
+      · exact nl el hel
+      · exact nr er her
+      · rw [matchEdit_key]; exact nl el hel
+    | some er =>
+      have her := (diffSpec_at_key ol sb sr k er).mpr hcr
+      simp only []
+      have hmem : newRightEdit er ∈ ds := by
+        rw [cls]
+        refine Or.inr (Or.inl ⟨er, her.1, rfl, ?_⟩)
+        intro el hel he
+        exact nl el hel (ol.eq_trans her.2 (ol.eq_symm he))
+      exact tw1 _ hmem her.2
+  | some el =>
+    have hel := (diffSpec_at_key ol sb sl k el).mpr hcl
+    cases hcr : changeD (lookupKV cmp k base.flatten) (lookupKV cmp k right.flatten) with
+    | none =>
+      have nr := (diffSpec_none_at_key ol sb sr k).mpr hcr
+      simp only []
+      have hmem : newLeftEdit el ∈ ds := by
+        rw [cls]
+        refine Or.inl ⟨el, hel.1, rfl, ?_⟩
+        intro er her he
+        exact nr er her (ol.eq_trans hel.2 he)
+      rw [tw1 _ hmem hel.2, effect_left]
+    | some er =>
+      have her := (diffSpec_at_key ol sb sr k er).mpr hcr
+      simp only []
+      have hmem : matchEdit resolve el er ∈ ds := by
+        rw [cls]
+        exact Or.inr (Or.inr ⟨el, er, hel.1, her.1, rfl, ol.eq_trans (ol.eq_symm hel.2) her.2⟩)
+      exact tw1 _ hmem (by rw [matchEdit_key]; exact hel.2)
 
 /-- **conflict_keeps_left**: a key whose three-way verdict is a conflict (delete conflict or clash
 conflict — the resolver said "not ok") keeps exactly left's mapping in the merged content; so do
